@@ -48,7 +48,7 @@ def run(ctx):
         rec = recs[nc[1] - 1]
         ctx.violation({"id": nc[2], "what": "real index answer differs from Index.tla", "detail": nc[3], "record": rec})
     # negative controls: corrupt one answer / one total of a real record
-    base = next(x for x in recs if any(qq["found"] for qq in x["queries"]))
+    base = next(x for x in recs if x["kind"] == "index" and any(qq["found"] for qq in x["queries"]))
     n1 = json.loads(json.dumps(base))
     n1["id"] = "neg-offset"
     qq = next(x for x in n1["queries"] if x["found"])
@@ -66,7 +66,7 @@ def run(ctx):
     flagged = {nc[2] for nc in rn.printed("NONCONF")}
     for n in (n1, n2, n3):
         ctx.negative_control(n["id"] in flagged, n["id"])
-    nq = sum(len(x["queries"]) for x in recs)
+    nq = sum(len(x.get("queries", x["totals"])) for x in recs)
     ctx.extra.update({"evaluations": nq, "distinct_nontrivial": len(recs), "exhaustive": True,
                       "rule": "all collections of <= %d listings from MCIndex (exhaustive) + seeded random collections; every (type, id) "
                               "of the universe + an absent id is queried in all three modes via the hook and via real index files" % (2 if q else 3),
